@@ -568,10 +568,25 @@ def check(prop, tier, families=None, only_entry=None, verbose=False):
 
     mem_gb = float(os.environ.get('VF_MEM_GB', '8'))
     kf_confirm = []
+    c02_sampled = {}
     for fam in fams:
         qs = fam.mod.queries(tier, prop) if fam.mod.queries.__code__.co_argcount >= 2 else fam.mod.queries(tier)
         kfmain = {i: (1 if i in open_kf else 0) for i in fam.kf_ids}
-        for q in qs:
+        qs_main = qs
+        cap_ = int(os.environ.get('VF_C02_QUICK_CAP', '130'))
+        if prop == 'C02' and tier == 'quick' and len(qs) > cap_ and not getattr(fam.mod, 'C02_NO_SAMPLING', False):
+            # C02 quick re-runs the other families' grids with the UB build: keep it affordable by taking every k-th query of a
+            # large family grid (deterministic; the thorough tier runs every query). Recorded in the evidence bounds.
+            step_ = -(-len(qs) // cap_)
+            groups_ = {}
+            for q_ in qs:   # whole configurations are kept or dropped (each configuration is one build)
+                groups_.setdefault(cfg_key(q_.get('cfg', {})), []).append(q_)
+            if len(groups_) >= 2 * step_:
+                qs_main = [q_ for gi_, g_ in enumerate(groups_.values()) if gi_ % step_ == 0 for q_ in g_]
+            else:
+                qs_main = qs[::step_]
+            c02_sampled[fam.name] = (len(qs_main), len(qs))
+        for q in qs_main:
             if only_entry and q['entry'] not in only_entry:
                 continue
             if q.get('confirm_only'):   # configuration that lies wholly inside an open known-finding region: only its confirm query runs
@@ -762,6 +777,8 @@ def check(prop, tier, families=None, only_entry=None, verbose=False):
     bounds = {}
     for fam in fams:
         bounds[fam.name] = getattr(fam.mod, 'BOUNDS', {}).get(tier, getattr(fam.mod, 'BOUNDS', {}))
+        if fam.name in c02_sampled:
+            bounds[fam.name] = '[C02 quick: every k-th query of this grid, %d of %d] %s' % (c02_sampled[fam.name][0], c02_sampled[fam.name][1], bounds[fam.name])
     ev = {
         'property_id': prop, 'tier': tier, 'seed': seed, 'level': 'model_checking',
         'coverage': {
